@@ -81,7 +81,7 @@ def cBucket0 : Cfg := { shape := .bucket, nres := 0, hash := hashLen, eq := eqSl
 def callsB : List Args := [[sl 1 [0, 31]], [sl 2 [1, 0]], [sl 3 [0, 31]], [.nilv], [sl 2 [1, 0]], [.nilv]]
 
 /-- `[]float64` with derived Equal (`==` on the elements) and a hash of the *raw* bit pattern of the
-first element: the hash of goderive before the `signed-zero` repair (finding F10) -/
+first element: the hash of goderive before the signed-zero repair (finding F10) -/
 def eqFl : Val → Val → Bool
   | .slice _ _ xs, .slice _ _ ys => goEq xs ys
   | _, _ => false
